@@ -20,7 +20,7 @@ ASSUMPTIONS = [
 ]
 BOUNDS = {'quick': 'about 2.6k parameter vectors x 10 separations x 4 routes', 'thorough': 'adds denser lattices (all pairs/triples of the value sets) and 24 separations'}
 
-R_QUICK = [0.05, 0.3, 0.8, 1.0, 1.6, 2.5, 4.0, 7.5, 12.0, 30.0]
+R_QUICK = [0.05, 0.3, 0.8, 1.0, 1.6, 2.5, 4.0, 7.5, 12.0, 30.0, 1, 2, 7]       # (integer-typed separations as well)
 R_THOROUGH = sorted(set(R_QUICK + [0.1, 0.2, 0.45, 0.65, 0.9, 1.25, 2.0, 3.0, 3.4, 5.0, 6.5, 9.0, 10.0, 15.0, 20.0, 25.0]))
 
 
